@@ -100,195 +100,6 @@ func c03Tree(st *memStore, entry int, withChoice bool) {
 
 // ---- reference model -------------------------------------------------------
 
-func c03Clone(st *memStore, t *memTree) *memTree {
-	n := st.newTree()
-	for k, v := range t.leaves {
-		n.leaves[k] = v
-	}
-	for k, v := range t.kids {
-		n.kids[k] = c03Clone(st, v)
-	}
-	for k, l := range t.lists {
-		nl := n.ensureList(st, k)
-		for _, r := range l.rows {
-			nl.rows = append(nl.rows, &memRow{key: r.key, t: c03Clone(st, r.t)})
-		}
-	}
-	return n
-}
-
-func c03Default(l meta.Leafable) val.Value {
-	if !l.HasDefault() {
-		return nil
-	}
-	v, err := NewValue(l.Type(), l.DefaultValue())
-	if err != nil {
-		panic(err)
-	}
-	return v
-}
-
-const (
-	c03Upsert = 0
-	c03Insert = 1
-	c03Update = 2
-)
-
-var errRefConflict = errors.New("ref conflict")
-var errRefNotFound = errors.New("ref not found")
-
-// refMerge merges S into T per the property text. strategy applies at this
-// level and to nested containers; below a list entry the spec'd behaviour is:
-// insert/upsert -> created entries are complete copies; update -> every
-// container addressed must already exist.
-func refMerge(st *memStore, md meta.HasDataDefinitions, S, T *memTree, isNew bool, strategy int) error {
-	for _, d := range md.DataDefinitions() {
-		id := d.Ident()
-		switch x := d.(type) {
-		case *meta.Choice:
-			// the case S selects replaces whatever other case T holds, then merges like plain members
-			var sel *meta.ChoiceCase
-			for _, cid := range x.CaseIdents() {
-				if memCaseHasData(S, x.Cases()[cid]) {
-					sel = x.Cases()[cid]
-					break
-				}
-			}
-			if sel == nil {
-				continue
-			}
-			for _, cid := range x.CaseIdents() {
-				if x.Cases()[cid] != sel && strategy == c03Upsert {
-					refClearCase(T, x.Cases()[cid])
-				}
-			}
-			if err := refMerge(st, sel, S, T, isNew, strategy); err != nil {
-				return err
-			}
-		case *meta.Leaf:
-			v := S.leaves[id]
-			if v == nil && isNew && strategy != c03Update {
-				v = c03Default(x)
-			}
-			if v != nil {
-				T.leaves[id] = v
-			}
-		case *meta.Container:
-			sk := S.kids[id]
-			if sk == nil {
-				continue
-			}
-			tk := T.kids[id]
-			created := tk == nil
-			switch strategy {
-			case c03Insert:
-				if !created {
-					return errRefConflict
-				}
-			case c03Update:
-				if created {
-					return errRefNotFound
-				}
-			}
-			if created {
-				tk = T.ensureKid(st, id)
-			}
-			if err := refMerge(st, x, sk, tk, created, strategy); err != nil {
-				return err
-			}
-		case *meta.List:
-			sl := S.lists[id]
-			if sl == nil {
-				continue
-			}
-			tl := T.lists[id]
-			switch strategy {
-			case c03Insert:
-				if tl != nil {
-					return errRefConflict
-				}
-			case c03Update:
-				if tl == nil {
-					return errRefNotFound
-				}
-			}
-			if tl == nil {
-				tl = T.ensureList(st, id)
-			}
-			if err := refMergeRows(st, x, sl, tl, strategy); err != nil {
-				return err
-			}
-		}
-	}
-	return nil
-}
-
-func refMergeRows(st *memStore, md *meta.List, sl, tl *memList, strategy int) error {
-	for _, sr := range sl.rows {
-		var tr *memTree
-		for _, r := range tl.rows {
-			if val.EqualVals(r.key, sr.key) {
-				tr = r.t
-			}
-		}
-		created := tr == nil
-		switch strategy {
-		case c03Insert:
-			if !created {
-				return errRefConflict
-			}
-		case c03Update:
-			if created {
-				return errRefNotFound
-			}
-		}
-		if created {
-			tr = tl.addRow(st, sr.key...)
-		}
-		// the property: Update needs every container S addresses to exist, also below an entry
-		below := c03Upsert
-		if strategy == c03Update {
-			below = c03Update
-		}
-		if err := refMerge(st, md, sr.t, tr, created, below); err != nil {
-			return err
-		}
-	}
-	return nil
-}
-
-// treeEq compares two trees structurally; leaf values through one Bool.
-func treeEq(a, b *memTree) bool {
-	if len(a.leaves) != len(b.leaves) || len(a.kids) != len(b.kids) || len(a.lists) != len(b.lists) {
-		return false
-	}
-	eq := true
-	for k, v := range a.leaves {
-		w, ok := b.leaves[k]
-		if !ok {
-			return false
-		}
-		eq = vpAnd(eq, v == w)
-	}
-	for k, v := range a.kids {
-		w, ok := b.kids[k]
-		if !ok {
-			return false
-		}
-		eq = vpAnd(eq, treeEq(v, w))
-	}
-	for k, l := range a.lists {
-		m, ok := b.lists[k]
-		if !ok || len(l.rows) != len(m.rows) {
-			return false
-		}
-		for i := range l.rows {
-			eq = vpAnd(eq, vpAnd(val.EqualVals(l.rows[i].key, m.rows[i].key), treeEq(l.rows[i].t, m.rows[i].t)))
-		}
-	}
-	return eq
-}
-
 func c03Run(m *meta.Module, strategy int, entry int) {
 	src, dst := newMemStore(), newMemStore()
 	c03Tree(src, entry, true)
